@@ -592,6 +592,10 @@ func (p *pool) runWrap(kind string, c WrapCase, tr *hx.Trace) {
 
 					ob.Out, ob.V2, ob.To = "fwd", mm.Type() == service.ForwardMsgTypeV2, fw.To
 
+					if leak := p.hopLeak(c, depth, u.Message, pay); leak != "" {
+						fail("hop-leak", fmt.Sprintf("level %d: the forward read by party %d %s", depth, pa, leak))
+					}
+
 					if !nextSet {
 						nextSet = true
 						next = fw.Msg
@@ -726,6 +730,63 @@ func (p *pool) runWrap(kind string, c WrapCase, tr *hx.Trace) {
 		Dist: []string{"kind:wrap", "profile:" + c.Profile, "kt:" + sk.KT, "enc:" + c.Enc, "style:" + c.Style,
 			fmt.Sprintf("auth:%v", c.Auth), fmt.Sprintf("rcpts:%d", len(c.Rcpts)), fmt.Sprintf("hops:%d", n),
 			fmt.Sprintf("via_mediator:%v", c.ViaMed), "payload:" + c.PayClass}})
+}
+
+// hopLeak inspects the plaintext a hop obtained: a forward has the members type, id, to, msg only, and its text
+// names no key of the route other than the next hop's (the wrapped envelope is base64 inside), nor the payload.
+func (p *pool) hopLeak(c WrapCase, depth int, plain, pay []byte) string {
+	var members map[string]json.RawMessage
+	if err := json.Unmarshal(plain, &members); err != nil {
+		return "is not a JSON object"
+	}
+
+	for k := range members {
+		switch k {
+		case "@type", "@id", "to", "msg", "type", "id":
+		default:
+			return "has the extra member " + k
+		}
+	}
+
+	n := len(c.Routing)
+	if depth >= n {
+		return ""
+	}
+
+	allowed := map[*env.Key]bool{p.key(c.Routing[n-1-depth]): true}
+	if n-1-depth == 0 {
+		allowed[p.key(c.Rcpts[0])] = true
+	} else {
+		allowed[p.key(c.Routing[n-2-depth])] = true
+	}
+
+	keys := []*env.Key{p.key(c.Sender)}
+	for _, r := range append(append([]KeyRef{}, c.Rcpts...), c.Routing...) {
+		keys = append(keys, p.key(r))
+	}
+
+	// the text outside the wrapped envelope
+	delete(members, "msg")
+
+	rest, _ := json.Marshal(members)
+
+	for _, k := range keys {
+		if allowed[k] {
+			continue
+		}
+
+		for _, form := range []string{k.DidKey, base58.Encode(k.Bytes), k.DocRef, k.KMSKID} {
+			if form != "" && bytes.Contains(rest, []byte(form)) {
+				return fmt.Sprintf("names key %d (%s), which is neither this hop's nor the next hop's", k.Name, form)
+			}
+		}
+	}
+
+	if len(pay) > 8 && bytes.Contains(plain, pay) {
+		return "contains the payload in the clear"
+	}
+
+	return ""
 }
 
 func nz(n int) int {
